@@ -4,6 +4,7 @@ package main
 
 import (
 	"encoding/binary"
+	"encoding/json"
 	"fmt"
 	"net"
 	"regexp"
@@ -186,6 +187,42 @@ func (n *node) gallina() string {
 		return vgen.App("PktCls.CCls", vgen.N(n.v))
 	}
 	panic("kind")
+}
+
+// hasEmptyAny: the tree contains an any() without operands (known finding empty-any-true).
+func (n *node) hasEmptyAny() bool {
+	if n.kind == "any" && len(n.kids) == 0 {
+		return true
+	}
+	for _, k := range n.kids {
+		if k.hasEmptyAny() {
+			return true
+		}
+	}
+	return false
+}
+
+// viaJSON rebuilds the condition from its JSON form (ClassMap marshal + unmarshal),
+// the way a gateway reads traffic classes from a file. ok = false if the JSON form
+// cannot express the tree or changes what it prints.
+func viaJSON(c pktcls.Cond) (out pktcls.Cond, ok bool) {
+	defer func() {
+		if recover() != nil {
+			out, ok = nil, false
+		}
+	}()
+	b, err := json.Marshal(pktcls.ClassMap{"c": pktcls.NewClass("c", c)})
+	if err != nil {
+		return nil, false
+	}
+	var cm pktcls.ClassMap
+	if err := json.Unmarshal(b, &cm); err != nil || cm["c"] == nil || cm["c"].Cond == nil {
+		return nil, false
+	}
+	if cm["c"].Cond.String() != c.String() {
+		return nil, false
+	}
+	return cm["c"].Cond, true
 }
 
 func (n *node) depth() int {
@@ -643,6 +680,8 @@ func main() {
 		"TCP/UDP/other, fragments, truncated or malformed L4 headers), BuildClassTree of the printed text; all 256 protocol numbers " +
 		"every run; texts: fixed corpus + printed trees with 1-3 edits (delete/insert/replace char, grammar fragments, truncation, " +
 		"case flips, whitespace) -> BuildClassTree accept/reject, String(), Eval, and print->parse again; " +
+		"a third of the trees (and every tree with an empty any()) is rebuilt from its JSON form (ClassMap) when that form can express it; " +
+		"40 trees with an any() without operands (tag empty-any-true); " +
 		"non-trivial = tree with a packet-dependent leaf, or text accepted by the implementation"
 	run.ShardSize = 220
 	if run.Tier == "thorough" {
@@ -657,6 +696,29 @@ func main() {
 			ps[i] = genProbe(r.Fork(uint64(i)), h)
 		}
 		c := t.cond()
+		var tags []string
+		empty := t.hasEmptyAny()
+		if empty {
+			tags = append(tags, "empty-any-true")
+		}
+		built := "api"
+		jsonSafe := true // the JSON form names protocols: only names that denote one number come back unchanged
+		t.leaves(func(l *node) {
+			if l.kind == "proto" {
+				found := false
+				for _, v := range printableProtos {
+					found = found || v == l.v
+				}
+				jsonSafe = jsonSafe && found
+			}
+		})
+		if (empty || r.Chance(1, 3)) && jsonSafe {
+			if cj, ok := viaJSON(c); ok {
+				c, built = cj, "json"
+			}
+		}
+		run.Tally(fmt.Sprintf("tree-built:%s", built))
+		run.Tally(fmt.Sprintf("tree-empty-any:%v", empty))
 		s := c.String()
 		ev := evalAll(c, ps)
 		re := build(s, ps)
@@ -677,7 +739,8 @@ func main() {
 		}
 		term := "(let s := " + vgen.Str(s) + " in " +
 			vgen.App("PktCls.CTree", t.gallina(), vgen.ListOf(ps, (*probe).gallina), "s", boolList(ev), re.gallinaWith(s)) + ")"
-		run.Add(kind, term, term, dep, map[string]any{"text": s, "evals": ev, "reparse_ok": re.ok, "reparse": re.text})
+		run.Add(kind, term, term, dep, map[string]any{"text": s, "evals": ev, "reparse_ok": re.ok, "reparse": re.text,
+			"built": built}, tags...)
 	}
 
 	// 1. every protocol number (names table), exhaustive
@@ -768,6 +831,33 @@ func main() {
 			continue
 		}
 		doText(kind, s, r)
+	}
+	// 4. trees with an any() without operands (the Go API and the JSON form allow it, the text grammar does not)
+	ne := run.Count(40, 2000)
+	for i := 0; i < ne; i++ {
+		r := rng.Fork(uint64(7000000 + i))
+		sub := genTree(r, vgen.Pick(r, 1, 2, 3))
+		ea := &node{kind: "any"}
+		var t *node
+		switch r.Intn(6) {
+		case 0:
+			t = ea
+		case 1:
+			t = &node{kind: "not", kids: []*node{ea}}
+		case 2:
+			t = &node{kind: "all", kids: []*node{sub, ea}}
+		case 3:
+			t = &node{kind: "any", kids: []*node{sub, &node{kind: "all", kids: []*node{ea}}}}
+		case 4:
+			t = &node{kind: "all", kids: []*node{&node{kind: "not", kids: []*node{ea}}, sub}}
+		default:
+			t = &node{kind: "any", kids: []*node{&node{kind: "not", kids: []*node{sub}}, ea}}
+		}
+		if !run.Want() {
+			run.Skip()
+			continue
+		}
+		doTree("tree-empty-any", t, r, 6)
 	}
 	run.Finish()
 }
